@@ -8,6 +8,7 @@ use serde_json::json;
 pub fn run(r: &mut Report) {
     crate::c01::signature_value_shapes(r);
     attributed_signature_only(r);
+    functionary_listed_twice(r);
     let owner = key(1);
     let ka = key(2);
     let kb = key(3);
@@ -186,6 +187,24 @@ pub fn run(r: &mut Report) {
                     let res = no_panic(|| in_toto_verify(&lay, owner_keys(&[&owner]), d.path().to_str().unwrap(), None).is_ok());
                     r.case("functionaries-sharing-a-short-id", json!({"scenario": id, "shared_prefix": prefix, "ids_differ": pa.key_id() != pb.key_id()}), if expect { "Ok" } else { "Err" }, format!("{:?}", res), res == Ok(expect) && pa.key_id() != pb.key_id());
                 }
+            }
+        }
+    }
+}
+
+/// C02: a key id listed several times among a step's functionaries is one functionary
+pub fn functionary_listed_twice(r: &mut Report) {
+    let owner = key(1); let (ka, kb, kc) = (key(2), key(3), key(4));
+    for (listed, listed_id) in [(vec![&ka, &ka], "a,a"), (vec![&ka, &ka, &kb], "a,a,b"), (vec![&ka, &kb, &ka], "a,b,a"), (vec![&ka, &ka, &ka], "a,a,a")] {
+        for (delivered, delivered_id) in [(vec![&ka], "a"), (vec![&ka, &kc], "a + stranger"), (vec![&ka, &kb], "a + b"), (vec![&ka, &kb, &kc], "a + b + stranger")] {
+            for threshold in [1u32, 2, 3] {
+                let d = tmpdir();
+                for k in &delivered { write_link(d.path(), "s", k.key_id(), &signed_link(&link("s", &[], &[("x", 1)]), &[k])); }
+                let lay = signed_layout(&layout(vec![step("s", threshold, &listed, allow_all(), allow_all())], vec![], &[&ka, &kb, &kc], 30), &[&owner]);
+                let res = no_panic(|| in_toto_verify(&lay, owner_keys(&[&owner]), d.path().to_str().unwrap(), None).is_ok());
+                let distinct_authorised = ["a", "b"].iter().filter(|x| listed_id.contains(**x) && delivered_id.contains(**x)).count() as u32;
+                let expect = distinct_authorised >= threshold;
+                r.case("functionary-listed-twice-is-one-functionary", json!({"step_lists": listed_id, "links_delivered_by": delivered_id, "threshold": threshold}), if expect { "Ok" } else { "Err" }, format!("{:?}", res), res == Ok(expect));
             }
         }
     }
